@@ -136,7 +136,7 @@ class ByteInterval(Node):
         # The contents may never be longer than the interval: shrinking the
         # interval below the number of stored bytes truncates them.
         if len(self.contents) > value:
-            del self.contents[value:]
+            self.contents = self.contents[:value]
 
     def __init__(
         self,
